@@ -4,6 +4,7 @@ mod enc;
 mod gen_enc;
 mod gen_dec;
 mod gen_c17;
+mod gen_rs;
 mod gen_c06;
 mod gen_c07;
 mod gen_c08;
@@ -44,6 +45,7 @@ fn main() {
             Some("c05d") => gen_dec::gen_c05(&mut out, seed, thorough),
             Some("c14") => gen_dec::gen_c14(&mut out, seed, thorough),
             Some("c17") => gen_c17::gen(&mut out, seed, thorough),
+            Some(w @ ("c03" | "c09" | "c05r")) => gen_rs::gen(&mut out, w, seed, thorough),
             Some("c15") => gen_dec::gen_c15(&mut out, seed, thorough),
             Some("c08") => gen_c08::gen(&mut out, seed, thorough),
             Some("c07") => gen_c07::gen(&mut out, seed, thorough),
